@@ -399,6 +399,22 @@ func check(c *core.Ctx, t *opspace.Transition) {
 			}
 		}
 	}
+	// O4b: ... and nothing else: a failed upgrade/rollback with cleanup-on-fail must not delete an object that
+	// existed before the operation and that the new revision's manifest still names (it did not create it)
+	if (op.Kind == "upgrade" || op.Kind == "rollback") && op.CleanupOnFail && !atomic && res.Failed && len(created) > 0 {
+		docs, _ := hx.ParseManifest(created[0].Manifest)
+		man := map[string]bool{}
+		for _, d := range docs {
+			man[d.Path()] = true
+		}
+		for _, e := range res.Log {
+			if e.Verb == "DELETE" && e.Applied && e.Class == "cluster" && man[sim.StorePath(e.Path)] {
+				if _, existed := t.Pre.Sim.Get(sim.StorePath(e.Path)); existed {
+					violate("O4-cleanup-overreach", fmt.Sprintf("%s existed before the operation and is named by the new revision's manifest, but the failed %s deleted it (%s)", sim.StorePath(e.Path), op.Kind, e.Label))
+				}
+			}
+		}
+	}
 	// O5: atomic upgrade restores the most recent revision that had been deployed
 	if op.Kind == "upgrade" && atomic && res.Failed && len(created) > 0 {
 		var good *rspb.Release
